@@ -49,7 +49,7 @@ class Gen(object):
         self.max_depth = max_depth
         f = {"history": True, "parallel": True, "targetless": True, "multitarget": True, "internal": True,
              "eventless": True, "sends": True, "ifs": True, "late": True, "initial_el": True, "done_events": True,
-             "finals": True, "cond": True, "par_bias": False, "small_alphabet": False, "delayed_internal": True}
+             "finals": True, "cond": True, "par_bias": False, "hist_bias": False, "small_alphabet": False, "delayed_internal": True}
         f.update(features or {})
         self.f = f
         self.nlog = 0
@@ -123,11 +123,31 @@ class Gen(object):
             if r.random() < 0.5:
                 root.add(El("state", {"id": self.new_id("s")}))
             self.budget = 0
+        elif self.f["hist_bias"]:
+            # nested history scopes that are left and re-entered again and again with different active descendants:
+            # what remembering, restoring, snapshotting and transpiling history is about
+            def compound(parent, depth):
+                c = parent.add(El("state", {"id": self.new_id("s")}))
+                for _ in range(r.randint(2, 3)):
+                    if depth < 2 and r.random() < 0.45:
+                        compound(c, depth + 1)
+                    else:
+                        c.add(El("state", {"id": self.new_id("s")}))
+                if r.random() < (0.8 if depth == 0 else 0.55):
+                    c.add(El("history", {"id": self.new_id("h"), "type": r.choice(["deep", "deep", "shallow"])}))
+                if r.random() < 0.15:
+                    c.add(El("history", {"id": self.new_id("h"), "type": "shallow"}))
+                return c
+            for _ in range(r.randint(1, 2)):
+                root.add(El("state", {"id": self.new_id("s")}))
+            for _ in range(r.randint(1, 2)):
+                compound(root, 0)
+            self.budget = 0
         else:
             n_top = r.randint(1, 3)
             for i in range(n_top):
                 self.make_state(root, 1)
-        if self.f["finals"] and r.random() < 0.7:
+        if self.f["finals"] and r.random() < (0.7 if not self.f["hist_bias"] else 0.2):
             root.add(El("final", {"id": self.new_id("f")}))
         self.root = root
         states = [e for e in root.walk() if e.tag in ("state", "parallel")]
@@ -160,8 +180,24 @@ class Gen(object):
             self.fill_block(tr, r.randint(0, 1))
         # transitions
         for s in states:
-            for _ in range(r.choice([0, 1, 1, 2, 2, 3] if not self.f["par_bias"] else [1, 1, 2, 2, 3])):
+            for _ in range(r.choice([0, 1, 1, 2, 2, 3] if not (self.f["par_bias"] or self.f["hist_bias"]) else [1, 1, 2, 2, 3])):
                 self.make_transition(s, all_targets)
+        if self.f["hist_bias"]:
+            # ways out of the history scopes and back in through the history pseudo-states
+            hists = [e for e in root.walk() if e.tag == "history"]
+            tops = [c for c in root.children if c.tag == "state"]
+            outside = [c for c in tops if not [e for e in c.walk() if e.tag == "history"]] or tops
+            for h in hists:
+                src = r.choice(outside)
+                t = El("transition", {"event": r.choice(["a", "b", "a.x", "a b"]), "target": h.attrs["id"]})
+                src.children.insert(0, t)
+                t.parent = src
+                self.fill_block(t, r.choice([0, 0, 1]))
+            inner = [e for e in root.walk() if e.tag == "state" and e.parent is not root and not [c for c in e.children if c.tag == "state"]]
+            for e in r.sample(inner, min(len(inner), r.randint(1, 3))):
+                t = El("transition", {"event": r.choice(["a", "b", "a b", "*"]), "target": r.choice(outside).attrs["id"]})
+                e.children.insert(0, t)
+                t.parent = e
         # onentry / onexit
         for s in [e for e in root.walk() if e.tag in ("state", "parallel", "final")]:
             for _ in range(r.choice([0, 0, 1, 1, 2])):
@@ -226,7 +262,7 @@ class Gen(object):
         r = self.r
         at = {}
         x = r.random()
-        eventless = self.f["eventless"] and x < (0.22 if not self.f["par_bias"] else 0.08)
+        eventless = self.f["eventless"] and x < (0.22 if not (self.f["par_bias"] or self.f["hist_bias"]) else 0.08)
         if not eventless:
             d = r.choice(DESCRIPTORS if not self.f["small_alphabet"] else ["a", "b", "a", "b", "a.x", "a b", "*"])
             if self.f["done_events"] and r.random() < 0.15:
@@ -292,7 +328,10 @@ class Gen(object):
     def add_content(self, blk, depth):
         r = self.r
         kinds = ["raise", "raise", "log", "log"] if not self.f.get("few_raises") else ["raise", "log", "log", "log", "log", "log"]
-        if self.f["sends"]:
+        if self.f.get("quiet"):
+            # the environment's events dominate: content mostly observes (logs, assignments), rarely raises or sends
+            kinds = ["log"] * 6 + ["raise"]
+        if self.f["sends"] and not (self.f.get("quiet") and r.random() < 0.8):
             kinds += ["send", "send", "cancel"] if not self.f.get("few_raises") else ["send", "cancel"]
         if self.dm != "null" and self.vars:
             kinds += ["assign", "assign"]
